@@ -12,8 +12,8 @@ func zzC05CropRecord(k int) {
 	g := NewGlobalVarsMain()
 	g.AKF = NewDualType(0, 1)
 	g.N = 2
-	STEPS := float64(k)
-	WDT := 1.0 / float64(k)
+	g.DT = NewDualType(1, 0)
+	WDT := 1.0 / float64(k) // the region derives the number of sub-steps from the sub-step length
 	ZEIT := vInt("zeit")
 	vAssume(ZEIT >= 1 && ZEIT <= 80000)
 	var SWCY, SWC1, SWCY1 float64
@@ -26,7 +26,7 @@ func zzC05CropRecord(k int) {
 	var cropOut CropOutputVars
 	cfg := zzOneColumnConfig("crop")
 	var cnam OutWriter = &zzLineCounter{tag: "crop"}
-	err, ctl := zzR_SubstepLoop(&SWCY, &SWC1, WDT, &SWCY1, &g, &crop, &nitro, &nitroB, &water, &hp, &dri, &cropOut, cfg, cnam, ZEIT, STEPS)
+	err, ctl := zzR_SubstepLoop(&SWCY, &SWC1, &WDT, &SWCY1, &g, &crop, &nitro, &nitroB, &water, &hp, &dri, &cropOut, cfg, cnam, ZEIT)
 	vCover("C05.croprecord.reach")
 	vAssert("C05.croprecord.falls_through", ctl == 0 && err == nil)
 	finished := 0
@@ -35,5 +35,8 @@ func zzC05CropRecord(k int) {
 			finished++
 		}
 	}
+	// a crop cycle ends at most once a day (Nitro reports it on the harvest day's first sub-step); however the
+	// record is organised, one finished cycle gives one record and no finished cycle gives none
+	vAssume(finished <= 1)
 	vAssert("C05.croprecord.one_record_per_finished_cycle", vCalls("call:WriteLine:crop") == finished)
 }
